@@ -3,4 +3,5 @@ let table : (string * (Model.sx -> Model.sx)) list = [
   "parts", Model.check_parts;
   "voteset", Model.check_voteset;
   "valset", Model.check_valset;
+  "signer", Model.check_signer;
 ]
